@@ -421,4 +421,93 @@ def jsonDecode (s : Str) : Option Val :=
   | .ok v => some v
   | .error _ => Option.none
 
+/-! ### the constructor side: `n0dict(text)` / `n0list(text)`
+
+`json.loads(text, object_pairs_hook=n0dict)`: the scanner is the same C code; the only difference
+is the end of `_parse_object`, which hands the *list of pairs* to the hook instead of building
+`dict(pairs)`.  The hook is the constructor itself applied to a list of 2-tuples: `not _incoming`
+(no pairs) or `all(len(itm) == 2 …)` both end in `dict.__init__(self, pairs)`. -/
+
+/-- `dict(pairs)` -/
+def dictOfPairs (pairs : List (Str × Val)) : List (Str × Val) :=
+  pairs.foldl (fun acc p => dictInsert acc p.1 p.2) []
+
+/-- `n0dict(pairs)` called as `object_pairs_hook` -/
+def n0hook (pairs : List (Str × Val)) : Val := .dict .n0 (dictOfPairs pairs)
+
+mutual
+/-- `scan_once` with the hook: objects and arrays descend with the hook, every other token is
+read by the same code as without it -/
+def parseValueH : Nat → Str → PyM (Val × Str)
+  | 0, _ => .error .OutOfFuel
+  | f + 1, s =>
+    match s with
+    | '{' :: r =>
+      match skipWs r with
+      | '}' :: r' => pure (n0hook [], r')
+      | r1 => parseMembersH f r1 []
+    | '[' :: r =>
+      match skipWs r with
+      | ']' :: r' => pure (.list .plain [], r')
+      | r1 => parseItemsH f r1 []
+    | _ => parseValue (f + 1) s
+def parseItemsH : Nat → Str → List Val → PyM (Val × Str)
+  | 0, _, _ => .error .OutOfFuel
+  | f + 1, s, acc => do
+    let (v, r) ← parseValueH f s
+    match skipWs r with
+    | ']' :: r' => pure (.list .plain (acc ++ [v]), r')
+    | ',' :: r' => parseItemsH f (skipWs r') (acc ++ [v])
+    | _ => bad
+/-- `_parse_object` with `object_pairs_hook`: the pairs are collected as they come -/
+def parseMembersH : Nat → Str → List (Str × Val) → PyM (Val × Str)
+  | 0, _, _ => .error .OutOfFuel
+  | f + 1, s, pairs =>
+    match s with
+    | '"' :: r => do
+      let (k, r1) ← scanString (r.length + 1) r []
+      match skipWs r1 with
+      | ':' :: r2 => do
+        let (v, r3) ← parseValueH f (skipWs r2)
+        match skipWs r3 with
+        | '}' :: r4 => pure (n0hook (pairs ++ [(k, v)]), r4)
+        | ',' :: r4 => parseMembersH f (skipWs r4) (pairs ++ [(k, v)])
+        | _ => bad
+      | _ => bad
+    | _ => bad
+end
+
+/-- `json.loads(text, object_pairs_hook=n0dict)` -/
+def jsonLoadsHookE (s : Str) : PyM Val := do
+  let (v, r) ← parseValueH (2 * s.length + 2) (skipWs s)
+  if (skipWs r).isEmpty then pure v else bad
+
+/-- `n0dict(text)` for a `str` argument (`force_dict` off, no other keyword):
+`if not _incoming` → an empty n0dict; `strip()`; `<…` is XML (`xmltodict`, not this property);
+`{…` is JSON read with the hook and copied into `self`; anything else is a `TypeError` -/
+def n0dictOfText (s : Str) : PyM Val :=
+  if s.isEmpty then .ok (.dict .n0 [])
+  else
+    match stripWs s with
+    | '<' :: _ => .error .Unsupported
+    | '{' :: r => do
+      let v ← jsonLoadsHookE ('{' :: r)
+      match v with
+      | .dict _ kvs => .ok (.dict .n0 kvs)      -- `isinstance(_incoming, (dict, zip))`: `dict.__init__(self, _incoming)`
+      | _ => .error .Unsupported                 -- not reachable: a text starting with `{` decodes to an object
+    | _ => .error .TypeError
+
+/-- `n0list(text)` for a `str` argument: `[…` is JSON read with the hook and copied into `self`
+(the items keep their classes: nested lists are plain lists, objects are n0dicts) -/
+def n0listOfText (s : Str) : PyM Val :=
+  if s.isEmpty then .ok (.list .n0 [])
+  else
+    match stripWs s with
+    | '[' :: r => do
+      let v ← jsonLoadsHookE ('[' :: r)
+      match v with
+      | .list _ xs => .ok (.list .n0 xs)         -- `list.__init__(self, _incoming)`
+      | _ => .error .Unsupported                 -- not reachable: a text starting with `[` decodes to an array
+    | _ => .error .TypeError
+
 end N0.Json
